@@ -80,6 +80,7 @@ impl LineIndex {
     // get col base 0
     pub fn get_col(&self, offset: TextSize, source_text: &str) -> Option<usize> {
         let (line, start_offset) = self.get_line_with_start_offset(offset)?;
+        let offset = self.clamp_to_line_content(line, offset, source_text);
         if self.is_line_only_ascii_index(line) {
             Some(usize::from(offset - start_offset))
         } else {
@@ -91,11 +92,23 @@ impl LineIndex {
     // get line and col base 0
     pub fn get_line_col(&self, offset: TextSize, source_text: &str) -> Option<(usize, usize)> {
         let (line, start_offset) = self.get_line_with_start_offset(offset)?;
+        let offset = self.clamp_to_line_content(line, offset, source_text);
         if self.is_line_only_ascii_index(line) {
             Some((line, usize::from(offset - start_offset)))
         } else {
             let text = &source_text[usize::from(start_offset)..usize::from(offset)];
             Some((line, utf16_len(text)))
+        }
+    }
+
+    /// An offset inside the terminator of `line` (the `\n` of a `\r\n`) belongs to the end of the line's
+    /// content: a column never exceeds the length of its line.
+    fn clamp_to_line_content(&self, line: usize, offset: TextSize, source_text: &str) -> TextSize {
+        let end = self.line_end_offset(line, source_text);
+        if usize::from(offset) > end {
+            TextSize::new(end as u32)
+        } else {
+            offset
         }
     }
 
